@@ -49,6 +49,7 @@ func c12Gen(class string, seed uint64, tier string) *vfScenario {
 	switch class {
 	case "race":
 		sc.Cfg["csites"] = 1 | 2 | 4 | 32
+		sc.Cfg["fsyncext"] = 1
 		ntasks := 1 + rng.IntN(4)
 		for t := 0; t < ntasks; t++ {
 			n := 1 + rng.IntN(4)
@@ -114,16 +115,33 @@ func c12Gen(class string, seed uint64, tier string) *vfScenario {
 
 func c12RaceOp(rng *rand.Rand, t, P, size int) vfOp {
 	switch x := rng.IntN(100); {
-	case x < 30:
+	case x < 20:
 		return vfOp{K: "readat", T: t, Off: int64(rng.IntN(size + 2)), N: 1 + rng.IntN(P)}
-	case x < 50:
+	case x < 34:
 		return vfOp{K: "readat", T: t, Off: int64(rng.IntN(size + 2)), N: P + 1 + rng.IntN(3*P)}
+	case x < 50:
+		// WriteAt of the bytes the file already holds there (B=5 is the tag of the initial content), single- or
+		// multi-chunk: the content never changes, so the other calls' results stay decidable
+		if size == 0 {
+			return vfOp{K: "sync", T: t}
+		}
+		off := rng.IntN(size)
+		n := 1 + rng.IntN(size-off)
+		if x < 42 && n > P {
+			n = 1 + rng.IntN(P)
+		}
+		return vfOp{K: "writeat", T: t, Off: int64(off), N: n, B: 5}
 	case x < 62:
 		return vfOp{K: "fstat", T: t}
 	case x < 72:
 		return vfOp{K: "truncate", T: t, Off: int64(size)}
-	case x < 80:
+	case x < 77:
 		return vfOp{K: "chmod", T: t, A: 0o644}
+	case x < 80:
+		if x == 79 {
+			return vfOp{K: "fchown", T: t, A: 0, B: 0}
+		}
+		return vfOp{K: "sync", T: t}
 	case x < 88:
 		return vfOp{K: "seek", T: t, Off: int64(rng.IntN(size + 1)), A: 0}
 	case x < 94:
@@ -413,7 +431,15 @@ func c12Race(r *vfRun) {
 					r.fail("C12/race-wrong-result", op.K, "task %d op %d: Stat = size %d err %v, want %d", t, i, res.Size, res.Err, size)
 					return
 				}
-			case "truncate", "chmod":
+			case "writeat":
+				if res.Err != nil || res.N != int64(op.N) {
+					r.fail("C12/race-wrong-result", op.K, "task %d op %d %+v: WriteAt = (%d, %v), want (%d, nil) or os.ErrClosed", t, i, op, res.N, res.Err, op.N)
+					return
+				}
+			case "truncate", "chmod", "sync", "fchown":
+				if op.K == "sync" && sc.cfg("fsyncext", 0) == 0 {
+					break
+				}
 				if res.Err != nil {
 					r.fail("C12/race-wrong-result", op.K, "task %d op %d %+v: %v", t, i, op, res.Err)
 					return
@@ -429,6 +455,10 @@ func c12Race(r *vfRun) {
 				}
 			}
 		}
+	}
+	if got := v.served(); !bytes.Equal(got, initial) {
+		r.fail("C12/race-wrong-result", "content", "the racing calls never change the content, but the served file is %x, want %x", vfHead(got), vfHead(initial))
+		return
 	}
 	if okCloses != 1 {
 		r.fail("C12/race-wrong-result", "close-count", "%d Close calls returned nil, want exactly one", okCloses)
